@@ -2810,7 +2810,7 @@ def groupby_reduce(
             offset = array.min()
             array = datetime_to_numeric(array, offset, datetime_unit="us")
 
-    if nax == 1 and by_.ndim > 1 and expected_ is None:
+    if nax < by_.ndim and expected_ is None:
         # When we reduce along all axes, we are guaranteed to see all
         # groups in the final combine stage, so everything works.
         # This is not necessarily true when reducing along a subset of axes
